@@ -23,7 +23,8 @@ CHECKS = {
              "repeat counts; the transcribed binary search + post-processing returns, for every count list (zero counts included) and every k, "
              "the segment 'first i with n1+..+ni >= k, else last'; a pattern's counter equals the number of its matches over any history through "
              "any instance; a single-use value is produced on its first request and never again. Tied to /repo by co-executing generated chains "
-             "driven from 0 to sum+3 matches through original and clones, compared per call on the returned tag / panic.",
+             "driven from 0 to sum+3 matches through original and clones, compared per call on the returned tag / panic. "
+             "Composite part: the k-th request on Option/Result/Vec/Poll/tuple return types with owned leaves through returns / each_call / n_times / at_least_times, a systematic depth-2 family first.",
         design_ref="DESIGN.md section 7, C02",
         technique="Coq proof (prefix sums, binary-search lemma, counting invariant) + model/implementation co-execution"),
     "C03": dict(
@@ -31,7 +32,8 @@ CHECKS = {
              "accumulates; a pattern gets a failure line iff its count violates that expectation (both directions, every boundary); after an "
              "error-free history the verdict is silent iff all expectations hold and every mentioned method was matched, and otherwise is exactly "
              "one line per violated pattern plus one never-called line per unmatched method; drop, verify() and report() compute the same verdict. "
-             "Tied to /repo by co-executing histories steered to bound-1 / bound / bound+1 per pattern; compared on verdict and the multiset of named patterns.",
+             "Tied to /repo by co-executing histories steered to bound-1 / bound / bound+1 per pattern; compared on verdict and the multiset of named patterns. "
+             "Also through real tuple expressions, every receiver kind, lend / no_verify_in_drop events, and counting programs of 2-3 threads under every interleaving of the controlled scheduler.",
         design_ref="DESIGN.md section 7, C03",
         technique="Coq proof (iff / line-list identity) + model/implementation co-execution"),
     "C04": dict(
@@ -65,7 +67,8 @@ CHECKS = {
              "every method's mode and pattern list (slot ranges included), hence every table lookup, unchanged, and the two lists are rejected together; a call's outcome "
              "and effect on the shared state are the same through any live instance; generic instantiations are distinct methods. Tied to /repo by paired runs: each base "
              "case as is / permuted / re-routed through clones / interleaved with a twin mock must give identical outcomes and verdicts, equal to the model. "
-             "Also run as REAL tuple expressions in three layouts per clause set (chunks, random nest, admissibly re-ordered) and through every receiver kind of the delegation inventory.",
+             "Also run as REAL tuple expressions in three layouts per clause set (chunks, random nest, admissibly re-ordered) and through every receiver kind of the delegation inventory. "
+             "Also 250 scheduled programs (threads through clones) against the Layer B model.",
         design_ref="DESIGN.md section 7, C18",
         technique="Coq proof (permutation invariance of assembly, routing lemma) + paired-run co-execution"),
     "C08": dict(
@@ -74,7 +77,8 @@ CHECKS = {
              "is exactly the mock-induced panics in order, caught or not; a non-empty list makes teardown of the original return exactly those errors whatever the counters, "
              "the text being their renderings joined by newlines. Tied to /repo by co-executing histories with every error kind at random positions, on original or clone, on "
              "the creator or another thread, mixed with user panics. Concurrent recording (several threads at once) is covered by C10's scheduler runs. "
-             "Concurrent part: 2-3 threads making failing calls on the real runtime under the controlled scheduler (all interleavings of the small programs) against the Layer B model, where every error is pushed in one critical section; compared on outcomes and on the verdict as a multiset.",
+             "Concurrent part: 2-3 threads making failing calls on the real runtime under the controlled scheduler (all interleavings of the small programs) against the Layer B model, where every error is pushed in one critical section; compared on outcomes and on the verdict as a multiset. "
+             "Teardown order is part of the model: a lent value that owns a clone of the mock and calls it from its Drop runs while the original's value chain is released, before the error list is read (theorem C08_errors_recorded_during_teardown_are_reported; events lendcall). The scheduler threads work through clones or share the original by reference.",
         design_ref="DESIGN.md section 7, C08",
         technique="Coq proof (append-only error-log invariant over histories) + model/implementation co-execution"),
     "C09": dict(
@@ -82,14 +86,16 @@ CHECKS = {
              "panic; the original's teardown is the ordered decision list unwinding > live clone > foreign thread > verdict; report() and verify()/drop map the same result; no "
              "event sequence creates a second original, consuming events leave none, dead instances refuse every event (at most once); the strong count is the number of handles "
              "(instances + delegation helpers + lent clones). Tied to /repo by co-executing life-cycle sequences (exhaustive short ones + random), events on other threads, with "
-             "Arc::strong_count observed after every step.",
+             "Arc::strong_count observed after every step. "
+             "The alphabet includes Clone::clone_from (the old value of the target is torn down, the slot holds a non-original afterwards) and lent values that call the mock from their Drop.",
         design_ref="DESIGN.md section 7, C09",
         technique="Coq proof (life-cycle invariants over all event sequences) + small-scope exhaustive and random co-execution"),
     "C11": dict(
         text="Machine-checked theorems (Props/C11.v): with std, dropping any instance while its thread unwinds never panics (any flags, expectations, clones, thread); a scope that owns "
              "an instance and is left by a mock-induced or user panic reports exactly that one panic; after a caught panic the shared state is what the completed evaluation left. "
              "Tied to /repo by running the whole crash matrix (panic origin x topology x met/unmet x owning-scope / unwinding-drop / caught) on the real crate; a double panic aborts "
-             "the harness process and is observed as a crash. The abort-on-double-panic rule itself is Rust runtime behaviour (modelled, not proved).",
+             "the harness process and is observed as a crash. The abort-on-double-panic rule itself is Rust runtime behaviour (modelled, not proved). "
+             "Topologies include mocks built by cleanup code during unwinding, no_verify_in_drop originals, and a value chain holding a value whose Drop makes a failing (swallowed) call while the thread unwinds.",
         design_ref="DESIGN.md section 7, C11",
         technique="Coq proof (unwinding => silent drop, for all states) + exhaustive crash-matrix co-execution"),
     "C10": dict(
@@ -97,7 +103,8 @@ CHECKS = {
              "the values handed out by the fetch_adds on each pattern counter and on the ordered index are exactly 0..n-1, each once; after joining, counters and ordered index equal "
              "those of the sequential Layer A run of the same calls; the shared error list is a permutation of all threads' mock-induced panics; a call run atomically IS the Layer A call "
              "(refinement). Tied to /repo by running the REAL runtime under a baton-passing scheduler at the granularity of every atomic operation and lock (hooks), comparing trace, "
-             "outcomes and verdict with the model on the same schedule (all interleavings of small programs + random ones). Weak-memory effects are outside (SC scheduler).",
+             "outcomes and verdict with the model on the same schedule (all interleavings of small programs + random ones). Weak-memory effects are outside (SC scheduler). "
+             "Programs include composite single-use values (a tuple return with two owned components: two locks taken one after the other), threads that share the original by reference, and concurrent lending through one &Unimock.",
         design_ref="DESIGN.md section 7, C10",
         technique="Coq proof (invariants over all schedules, sequential-equivalence refinement) + scheduler-controlled co-execution"),
     "C12": dict(
@@ -106,7 +113,8 @@ CHECKS = {
              "are stored by into_return (never emptied); the builder model refuses n_times/at_least_times/each-returns for non-Clone values and stores a non-Clone value only single-use. "
              "Tied to /repo by (races) all interleavings of 2-3 threads racing for a slot on the real runtime under the controlled scheduler, (histories) live-value counts "
              "(constructed - dropped) after every step and after teardown, (type level) model well-typedness = rustc verdict for every type state x builder method x {Clone, non-Clone}. "
-             "(composite) owned leaves inside Option/Result/Vec/Poll/tuples are requested through single-use and repeated-use paths with the C17 output model as oracle.",
+             "(composite) owned leaves inside Option/Result/Vec/Poll/tuples are requested through single-use and repeated-use paths with the C17 output model as oracle. "
+             "Composite single-use values (several slots emptied one after the other, not atomically) have one owner under every schedule: per value, deliveries + requests between two of its slots = [first slot empty], the slots such a request still needs are full, and when all requests have ended every emptied value was handed out (C12_single_use_value_has_one_owner, C12_raced_value_is_not_lost); raced on the real runtime with trait P { fn mt(&self, u8) -> (Uniq, &str, Uniq) }.",
         design_ref="DESIGN.md section 7, C12",
         technique="Coq proof (single-delivery invariant over all schedules; type-state lemmas) + scheduler-controlled races, drop-counter histories and a rustc accept/reject sweep"),
     "C13": dict(
@@ -125,7 +133,8 @@ CHECKS = {
              "table regenerated on every run from src/mock/*.rs - every method of every mirrored trait called through the upstream trait on four mocks, re-checked in Coq against the Layer A model "
              "(MirrorsCheck.v) - and (2) differential random scripts (short, zero, oversized, Interrupted, hard errors, EOF, Pending) through real upstream provided methods on a Unimock versus a plain "
              "struct, plus the Coq model for the transcribed bodies. "
-             "Plus a mirrored local upstream trait with associated constants (default + override, default kept, no default) read by provided methods of the &self / &mut self / by-value kinds, and the receiver conversions of the delegation inventory.",
+             "Plus a mirrored local upstream trait with associated constants (default + override, default kept, no default) read by provided methods of the &self / &mut self / by-value kinds, and the receiver conversions of the delegation inventory. "
+             "A non-mirrored trait with empty default bodies and a mirrored trait with associated constants are driven on a plain implementor and on the mock; clauses on TerminationMock::report itself in the receiver part.",
         design_ref="DESIGN.md section 7, C20",
         technique="Coq proof (induction on free-monad programs; assembler and slot invariant) + regenerated wiring table + differential co-execution of scripts"),
     "C05": dict(
@@ -144,7 +153,8 @@ CHECKS = {
              "(same variants, order, count, leaf data; data behind &T seen through a reference into the mock, stable across calls); later single-use requests succeed iff no owned part lies on the "
              "selected path, else fail with CannotReturnValueMoreThanOnce. Proved by structural induction on a Gallina transcription of the macro's kind analysis and the src/output impl table; tied per "
              "run by rustc-checked acceptance, type_name-checked OutputKind and co-executed values of generated #[unimock] programs. "
-             "Accepted types that borrow from self are also generated with the receiver's lifetime written out; eight configuration paths (returns alone, each_call, n_times(1|2|3), at_least_times(1) on some_call and each_call).",
+             "Accepted types that borrow from self are also generated with the receiver's lifetime written out; eight configuration paths (returns alone, each_call, n_times(1|2|3), at_least_times(1) on some_call and each_call). "
+             "Return-type spellings include the receiver's lifetime written out, borrows from a parameter and leaf types that carry a lifetime parameter of their own (&W<'_>); repeatable owned values are also requested by 2-3 threads under every interleaving.",
         design_ref="DESIGN.md section 7, C17",
         technique="Coq proof (structural induction over the kind tree) + generated-program co-execution against the real macros; rustc probes for the acceptance boundary"),
     "C19": dict(
